@@ -9,6 +9,13 @@ HARNESS = {
     'map': dict(src=['h_map.cpp'], hdr=5, rec=3),
     'hash': dict(src=['h_hash.cpp'], hdr=7, rec=4),
     'mem': dict(src=['h_mem.cpp'], hdr=4, rec=3),
+    'dlist': dict(src=['h_dlist.cpp'], hdr=5, rec=3),
+    'vector': dict(src=['h_vector.cpp'], hdr=6, rec=5),
+    'string': dict(src=['h_string.cpp', 'h_string_adapter.c'], deps=['h_string_adapter.h'], hdr=4, rec=6),
+    'sort': dict(src=['h_sort.cpp'], hdr=10, rec=3),
+    'array': dict(src=['h_array.cpp'], hdr=5, rec=7),
+    # memory.c compiled against the shadow <stdatomic.h>/<sched.h>; hdr = T + 4 thread blocks of 6 bytes; rec = 1 schedule byte
+    'c06': dict(src=['h_c06.cpp'], hdr=25, rec=1, shim='shim', libtag='shim', lib_only=['memory', 'common']),
 }
 
 def g2_jobs(harness, cases_per_worker, workers=16, variant='asan', tagx=''):
@@ -56,6 +63,37 @@ def g7_jobs(harness, scripts_per_worker, workers=16, pair_max=12, variant='asan'
                             harness=harness, exe=exe, prop=ctx['prop']))
         return jobs
     return mk
+
+def custom_jobs(harness, name, args, variant='asan'):
+    """a harness-specific engine: <exe> --prop P <args...> ; args may contain {out}"""
+    def mk(ctx, Job):
+        exe = ctx['exes'][(harness, variant)]
+        a = [x.format(out=ctx['outdir']) for x in args]
+        return [Job('%s-%s' % (name, harness), [exe, '--prop', ctx['prop']] + a, ctx['outdir'],
+                    cur=os.path.join(ctx['outdir'], 'cur-%s.case' % name), harness=harness, exe=exe, prop=ctx['prop'])]
+    return mk
+
+def sort_scopes(thorough):
+    sc = []
+    big, small = (9, 7) if thorough else (7, 5)
+    qbig, qsmall = (5, 4) if thorough else (4, 0)
+    k = 0
+    for entry in (0, 1, 2):
+        for es in range(8):
+            main = es in (0, 2, 5)
+            L = big if main else small
+            for sel in range(9):
+                if sel == 8 and entry == 0:
+                    continue
+                if not main and sel not in (0, 2, 3, 8):
+                    continue
+                flags = (k % 2) * 1 + ((k // 2) % 2) * 4 + (0x20 if entry == 2 else 0)
+                k += 1
+                sc.append('arr:%d:%d:%d:%d:%d' % (entry, es, sel, L, flags))
+            ql = qbig if main else qsmall
+            if ql:
+                sc.append('qr:%d:%d:%d:%d' % (entry, es, ql, 0x20 if entry == 2 else 0))
+    return sc
 
 def g3_jobs(harness, runs, workers=12, max_len=600):
     """libFuzzer campaign (thorough tier). Each worker is an independent libFuzzer
@@ -257,6 +295,157 @@ def plan(prop, tier, seed, budget):
                  'state could hide behind that pruning). Non-trivial: >= 1 lock of an expired weak pointer, >= 1 re-targeting of an '
                  'occupied pointer that destroys an allocation, >= 1 swap between owners of different allocations. Distinct = case bytes.',
             assumptions=COMMON_ASSUME + ['the bookkeeping block is any library allocation below 1000 bytes, managed blocks are 1000+serial bytes'],
+        )
+    elif prop == 'C12':
+        P = dict(
+            level='exploration',
+            builds=[('dlist', 'asan')] + ([] if q else [('dlist', 'rel'), ('dlist', 'fuzz')]),
+            jobs=[g1_jobs('dlist', ['1:1:5:closure', '2:1:4:closure', '3:1:3:closure', '1:1:0:seq4', '2:1:0:seq3'] if q else
+                          ['1:2:6:closure', '2:2:5:closure', '3:1:5:closure', '1:1:0:seq5', '2:1:0:seq4', '3:1:6:closure'],
+                          200000 if q else 3000000),
+                  g2_jobs('dlist', 150000 if q else 1500000)] +
+                 ([] if q else [g2_jobs('dlist', 100000, variant='rel'), g3_jobs('dlist', 400000)]),
+            py=[] if q else [g3_stats('dlist')],
+            rule='case = byte-coded history over 1-3 cstl_dlist lists: push/pop at both ends (pops also on empty), insert after the '
+                 'i-th element, erase, reverse, sort (asc/desc), concat (d != s, occasionally d == s), swap, find in both directions, '
+                 'foreach with stop, foreach whose callback erases and frees a subset of the visited elements, clear; oracle = reference '
+                 'sequence per list audited after every op: size, front, back, forward traversal == sequence, backward traversal == '
+                 'mirror, element payload guard words. Non-trivial: during the case some reverse on a list of length 2-3 or swap/concat '
+                 'with an operand of length 0-3, AND some reverse/swap/concat with an operand of length >= 4 (each followed by the audit '
+                 'with its backward traversal). Distinct = distinct case bytes.',
+            assumptions=COMMON_ASSUME,
+        )
+    elif prop == 'C09':
+        P = dict(
+            level='exploration',
+            builds=[('vector', 'asan')] + ([] if q else [('vector', 'rel'), ('vector', 'fuzz')]),
+            jobs=[custom_jobs('vector', 'argtable', ['argtable-all', '1', '{out}']), g2_jobs('vector', 60000 if q else 350000)] +
+                 ([] if q else [g1_jobs('vector', ['argtable:%d:%d:1:2:1' % (e, b) for e in range(9) for b in range(3)], 3000000),
+                                g2_jobs('vector', 50000, variant='rel'), g3_jobs('vector', 300000)]),
+            py=[] if q else [g3_stats('vector')],
+            rule='case = byte-coded history over 1-2 cstl_vector objects (element sizes 1..64, with/without constructor+destructor): '
+                 'resize, reserve, shrink_to_fit, clear, swap, sort, reverse, at, write, with sizes/indexes from a symbolic table resolved '
+                 'against the model (0,1,2, size+-1, cap+-1, LIMIT/es+-1, 2^32, 2^63, SIZE_MAX/es+-1, SIZE_MAX-1, SIZE_MAX; boundary codes '
+                 'rationed to ~20%, predicted aborts mostly on a sacrificial twin); oracle = reference byte vector + allocation '
+                 'interposer: cap >= size, data is the one live block and its size >= (cap+1)*es in 128-bit arithmetic, at(i) == data+i*es, '
+                 'at aborts iff i >= size, reserve never aborts and is a quiet no-op when unsatisfiable, resize aborts iff growth cannot be '
+                 'satisfied, bytes preserved, ctor/dtor exactly once per slot entering/leaving [0,size). G1 = every single op x full '
+                 'symbolic table x 9 element sizes x 3 base states (exhaustive). Non-trivial: >= 1 request whose byte count is '
+                 'unrepresentable, >= 1 reallocation of a non-empty vector that moved the data, and ctor+dtor enabled.',
+            assumptions=COMMON_ASSUME + ['requests above 1 MiB are refused by the interposer ("cannot be satisfied")'],
+        )
+    elif prop == 'C10':
+        d1 = ['%s:%d:1' % (w, b) for w in 'nw' for b in range(15)]
+        d2q = ['%s:%d:2' % (w, b) for w in 'nw' for b in range(7)]
+        d2 = ['%s:%d:2' % (w, b) for w in 'nw' for b in range(15)]
+        d3 = ['%s:%d:3' % (w, b) for w in 'nw' for b in range(7)]
+        P = dict(
+            level='exploration',
+            builds=[('string', 'asan')] + ([] if q else [('string', 'rel'), ('string', 'fuzz')]),
+            jobs=[g1_jobs('string', d1 + d2q if q else d1 + d2 + d3, 200000 if q else 3000000),
+                  g2_jobs('string', 150000 if q else 1000000)] +
+                 ([] if q else [g2_jobs('string', 100000, variant='rel'), g3_jobs('string', 300000)]),
+            py=[] if q else [g3_stats('string')],
+            rule='case = byte-coded edit history over 2-3 narrow or wide cstl string objects (alphabet a,b,c,NUL,0x7f/0x1F600): set_str, '
+                 'insert_ch/str_n/str/obj, append*, erase, substr (dst != src), resize, reserve, clear, swap, at, find_ch, find_str, find, '
+                 'compare, compare_str, with pos/count from a symbolic table (0, mid, size-1, size, size+1, SIZE_MAX and neighbours, '
+                 'SIZE_MAX-size, SIZE_MAX-pos(+1), LIMIT+-1); oracle = reference std::basic_string: size, str() == reference + NUL, at, abort '
+                 'iff pos beyond the end (pos == size: either), counts clamped, unrepresentable/unsatisfiable growth aborts, find/compare '
+                 'equal strchr/strstr/strcmp on the reference buffer. G1 = from every base string of <= 3 chars over {a,b}, narrow and wide: '
+                 'every single op with the full table, every ordered pair. Non-trivial: >= 1 insert_ch/erase/substr with pos >= 1 and '
+                 'count >= SIZE_MAX-size, and >= 1 edit that allocated. Distinct = distinct case bytes.',
+            assumptions=COMMON_ASSUME + ['inserting a string into itself is outside the domain (property text)'],
+        )
+    elif prop == 'C11':
+        P = dict(
+            level='exploration',
+            builds=[('sort', 'asan')] + ([] if q else [('sort', 'rel'), ('sort', 'fuzz')]),
+            jobs=[g1_jobs('sort', sort_scopes(not q), 200000 if q else 3000000), g2_jobs('sort', 100000 if q else 600000)] +
+                 ([] if q else [g1_jobs('sort', sort_scopes(False), 200000, variant='rel'), g2_jobs('sort', 100000, variant='rel'),
+                                g3_jobs('sort', 60000)]),
+            py=[] if q else [g3_stats('sort')],
+            rule='case = one array (0-8000 elements of 1/2/4/8/3/12/16/24 bytes, key + unique tag bytes) sorted through one entry point '
+                 '(raw array in exact-size blocks, vector cap==size, vector cap>size) with one selector (QUICK, QUICK_R, QUICK_M, HEAP, 4, 99, '
+                 '-1, 2897234, default wrapper), cstl_swap or a checking swap, scripted rand(); oracle = sorted + byte-multiset equal + callback '
+                 'pointer checks, then find on the unsorted input, search on the sorted result for present and absent keys, reverse twice. G1 = '
+                 'all arrays up to length 7/9 over a 4-value alphabet per entry point x element size x selector, and for QUICK_R every pivot '
+                 'script. Non-trivial: count >= 3 with >= 1 repeated and >= 2 distinct key values. Distinct = distinct case bytes.',
+            assumptions=COMMON_ASSUME + ['QUICK/QUICK_R inputs capped at 3000 elements (recursion depth under ASan)'],
+        )
+    elif prop == 'C14':
+        P = dict(
+            level='exploration',
+            builds=[('array', 'asan')] + ([] if q else [('array', 'rel'), ('array', 'fuzz')]),
+            jobs=[g1_jobs('array', ['seq3:%d:16' % k for k in range(16)], 3000000), g2_jobs('array', 60000 if q else 500000)] +
+                 ([] if q else [g1_jobs('array', ['cseq4:%d:16' % k for k in range(16)], 3000000),
+                                g2_jobs('array', 50000, variant='rel'), g3_jobs('array', 400000)]),
+            py=[] if q else [g3_stats('array')],
+            rule='case = byte-coded history over 4 cstl_array_t objects and up to 3 harness-owned external buffers: alloc, set, slice (also in '
+                 'place), unslice, reset, release, at, data, size, with counts/bounds from a symbolic table (0,1,len+-1, nm-off(+1), nm, '
+                 'SIZE_MAX-off(+1), SIZE_MAX, SIZE_MAX/sz(+1), LIMIT/sz+-1) and element sizes up to SIZE_MAX/2+1; oracle = buffer/view model: '
+                 'size, at(i) == base+(off+i)*sz inside the live block for i < len and abort otherwise, slice aborts iff empty / end < beg / '
+                 'off+end > nm (128-bit), alloc leaves the object empty when the byte count is unrepresentable or the allocation fails, '
+                 'per-op allocator events: a buffer is freed exactly in the op that drops its last reference, nothing live at the end. G1 = '
+                 'all sequences of depth 3 (thorough: compact alphabet depth 4) over the reduced table. Non-trivial: >= 1 alloc/set on an object '
+                 'that is a slice with offset > 0, >= 1 in-place slice, >= 1 bound >= SIZE_MAX-off. Distinct = distinct case bytes.',
+            assumptions=COMMON_ASSUME + ['whether the library frees an external buffer after its last user reset it is not asserted (header and code disagree)'],
+        )
+    elif prop == 'C15':
+        hs = [('slist', ['1:1:5:closure', '2:1:3:closure'], ['1:2:6:closure', '2:1:5:closure']),
+              ('dlist', ['1:1:5:closure', '2:1:4:closure'], ['1:2:6:closure', '2:2:5:closure']),
+              ('tree', ['1:8:0:3', '2:8:0:3'], ['1:8:0:6', '2:8:0:6', '1:9:0:4', '2:9:0:4']),
+              ('heap', ['2:0:4'], ['2:0:6', '3:0:5']),
+              ('map', ['4:0:5'], ['4:0:7', '4:1:7'])]
+        jobs = []
+        for h, sq, st in hs:
+            jobs.append(g1_jobs(h, sq if q else st, 200000 if q else 3000000))
+            jobs.append(g2_jobs(h, 60000 if q else 500000, workers=3))
+        P = dict(
+            level='exploration',
+            builds=[(h, 'asan') for h, _, _ in hs],
+            jobs=jobs,
+            rule='case = byte-coded fill history on one of bintree, rbtree, heap, dlist, slist, map, then clear with a callback that counts '
+                 'per address, overwrites the element with 0xDD and frees it (map: frees the key and value cells), then further operations '
+                 'applied both to the cleared container and to a freshly initialised twin; oracle = callback exactly once per contained '
+                 'element and for nothing else, ASan (any later touch of a handed-over element is a heap-use-after-free), size 0, and '
+                 'identical observable results of cleared container and twin. G1 = clear applied in every reachable state of the small-scope '
+                 'closures (all tree shapes <= 8 nodes, heaps <= 9, lists <= 6, maps <= 8 entries). Non-trivial: clear of a container holding '
+                 '>= 3 elements (trees: including a node with two children) followed by reuse operations. Distinct = distinct case bytes.',
+            assumptions=COMMON_ASSUME,
+        )
+    elif prop == 'C16':
+        hs = ['map', 'vector', 'string', 'hash', 'mem', 'array']
+        jobs = [g7_jobs(h, 150 if q else 2500, workers=3 if q else 4, pair_max=12) for h in hs]
+        P = dict(
+            level='fault_enumeration',
+            builds=[(h, 'asan') for h in hs],
+            jobs=jobs,
+            rule='evaluation = (script, fault set): scripts are generated allocation-heavy histories of the map, vector, string/wstring, hash, '
+                 'unique/shared/weak pointer and array decoders; a fault-free run counts the script\'s N library allocation requests, then '
+                 'the script is re-run with every single ordinal failing, every suffix failing, every pair (N <= 12) and every triple (N <= 8). '
+                 'Oracle = the op that received a failed allocation shows its documented failure (map insert -1 + end iterator; reserve / '
+                 'shrink_to_fit / hash resize quietly unchanged; vector and string growth aborts; unique/shared/array alloc leave the object '
+                 'empty having dropped the old content), every other op and the rest of the script behave per the container\'s reference '
+                 'model, and the final audit finds no live library allocation, no double free, no ASan report. Non-trivial: >= 1 injected '
+                 'failure was delivered and >= 3 ops followed it. Distinct = distinct (fault set, script) byte strings.',
+            assumptions=COMMON_ASSUME + ['faults are injected at malloc/calloc/realloc of the library only (link-time --wrap)'],
+        )
+    elif prop == 'C18':
+        import c18_clients
+        def c18(ctx):
+            return c18_clients.run(ctx)
+        P = dict(
+            level='exploration',
+            builds=[],
+            jobs=[],
+            py=[c18],
+            rule='case = a generated C99 client program: an ordered list of public headers (every header alone, all together in several '
+                 'orders, seeded ordered pairs; thorough: every ordered pair and random subsets) x {1, 2 translation units} x {libcstl.a, '
+                 'libcstl.so} x {include only, take the address of every function the included headers declare}; compiled with the project\'s '
+                 'own CFLAGS against the library built by the project Makefile from the working tree; oracle = compiler, linker and program '
+                 'exit status 0, and every declared non-static function is exported by both libraries. Non-trivial: a program with two '
+                 'translation units or at least two headers. Distinct = distinct configurations.',
+            assumptions=['gcc and the project Makefile (make b) as the build under test', 'only what the project itself makes an error fails a program'],
         )
     else:
         raise SystemExit('no plan for property %s' % prop)
